@@ -1,5 +1,26 @@
+import os, re
 from vlib.core import Query
+from vlib import slicer
 from checks import C16
+EH = "Source/Lib/Encoder/Globals/EbEncHandle.c"
+def gen_threads(wd):
+    src = slicer.read(EH)
+    init = slicer.function(src, "svt_av1_enc_init")
+    stmts = re.findall(r"EB_CREATE_THREAD(?:_ARRAY)?\s*\((?:[^()]|\([^()]*\))*\)\s*;", init, re.S)
+    if len(stmts) < 10:
+        raise RuntimeError("only %d thread-creation statements found in svt_av1_enc_init" % len(stmts))
+    body = ""
+    for i, st in enumerate(stmts):
+        if st.startswith("EB_CREATE_THREAD_ARRAY"):
+            # give each array its own backing store: the model macro assigns `pa = arr_<line>`
+            body += "    { EbHandle *arr___LINE__ = pools[%d]; %s }\n" % (i, st.replace("\n", " "))
+        else:
+            body += "    %s\n" % st.replace("\n", " ")
+    body = body.replace("arr___LINE__", "arr_0")
+    out = "#undef EB_CREATE_THREAD_ARRAY\n#define EB_CREATE_THREAD_ARRAY(pa, count, fn, ctxs) do { pa = arr_0; for (uint32_t i_ = 0; i_ < (count); i_++) { (pa)[i_] = (EbHandle)&thread_tokens[1]; live_threads++; created_threads++; } } while (0)\n"
+    out += "/* thread-creation statements of svt_av1_enc_init, verbatim */\nstatic void create_threads(EbEncHandle *enc_handle_ptr, SequenceControlSet *control_set_ptr) {\n" + body + "}\n"
+    out += slicer.function(src, "svt_enc_handle_stop_threads")
+    open(os.path.join(wd, "c15_threads.inc"), "w").write(out)
 META = {
     "level_text": "The real constructor/destructor pairs (EB_NEW / EB_DELETE protocol) of the listed objects run symbolically without failures; assertions: every allocation, mutex and semaphore created by the constructor is released by the destructor chain (live counters return to zero), no invalid or double free (CBMC pointer checks), destructor fields hold the type's own destructor. Teardown after a FAILED construction is C16.",
     "level_note": "Object-graph level only: encode_dec segments, the system resource manager (pool, muxing queues, fifos, wrappers), picture buffer descriptors, output bitstream units, with small symbolic sizes. Thread exit, mid-stream teardown of a running pipeline and memory growth over repeated sessions are outside (no whole-encoder run is encodable).",
@@ -8,4 +29,8 @@ META = {
     "outside": ["svt_av1_enc_deinit on a running encoder", "decoder memory map walk"],
     "stubs": ["svt_print_alloc_fail (empty)"], "explanation": ""}
 def queries(tier):
-    return C16.queries(tier, fail=0, prefix="nofail_")
+    qs = C16.queries(tier, fail=0, prefix="nofail_")
+    qs.append(Query(name="threads_created_are_joined", harness="C15/threads.c", gen=gen_threads, unwind=6, timeout=600,
+                    funcs=[EH + ":svt_av1_enc_init (thread creation statements, extracted)", EH + ":svt_enc_handle_stop_threads"],
+                    bound="every per-stage process count 0..3 independently", what="teardown joins exactly the threads init created"))
+    return qs
